@@ -21,11 +21,12 @@ H1 = gen.schema(
     types=[gen.stype('tc', [gen.key('kd', handler='hk')]),
            gen.stype('ta', [gen.key('kc', 'integer', handler='hc'),
                             gen.multisection('tc', '*', attr='cs', handler='hm'),
-                            gen.key('ke')])],
+                            gen.key('ke')]),
+           gen.stype('td', [], extends='ta')],
     items=[gen.key('ka', handler='ha', default='d'),
            gen.multikey('kb', handler='hb'),
-           gen.section('ta', '*', attr='sa', handler='hd'),
            gen.multisection('ta', '+', attr='ms', handler='he'),
+           gen.section('td', '*', attr='sa', handler='hd'),
            gen.key('kz')])
 H2 = gen.schema(
     types=[gen.stype('ta', [gen.key('ka', handler='h-a')], datatype=gen.WRAP)],
@@ -37,9 +38,10 @@ VIEWS = {k: gen.View(v) for k, v in SCH.items()}
 TEXTS = {
     'H1': [
         ['ka 1', 'kb x', 'kb y'],
-        ['<ta>', 'kc 5', '<tc/>', '<tc c2>', 'kd q', '</tc>', '</ta>', '<ta n1/>', '<ta n2>', '<tc/>', '</ta>'],
+        ['<td>', 'kc 5', '<tc/>', '<tc c2>', 'kd q', '</tc>', '</td>', '<ta n1/>', '<ta n2>', '<tc/>', '</ta>'],
         [],
         [['<ta ', ['w', 2, 'n'], '>'], '</ta>', ['<ta ', ['w', 2, 'm'], '/>'], 'kz 1'],
+        ['<ta a1>', '<tc/>', 'kc 1', '<tc x/>', '</ta>', '<td>', '<tc>', 'kd 2', '</tc>', '</td>', '<ta a2/>', 'kb z'],
     ],
     'H2': [
         ['<ta/>', '<ta x>', 'ka 1', '</ta>', 'zz 2'],
@@ -156,7 +158,7 @@ class C16(P.TextMixin, Harness):
                 for (a, b) in combos:
                     for nones in ([], [names[(a + 1) % len(names)]], [names[a]]):
                         us.append({'schema': sid, 'text': ti, 'files': [['main.conf', t]],
-                                   'sym': [a, b], 'none': nones, 'extra': False})
+                                   'sym': [a, b], 'none': nones, 'extra': False, 'must_reach': 'ok'})
                 # an extra (superfluous / duplicate) symbolic entry on top of a complete map
                 us.append({'schema': sid, 'text': ti, 'files': [['main.conf', t]], 'sym': [],
                            'none': [], 'extra': True})
